@@ -533,9 +533,39 @@ class Interp(object):
         if self.registry is None or env.finfo is None:
             return None
         con = self.registry.get(env.finfo.qualname)
-        if con is None:
+        if con is not None and con.loops.get(ordinal) is not None:
+            return con.loops.get(ordinal)
+        if con is not None and con.loops:
             return None
-        return con.loops.get(ordinal)
+        return self.adopted_loop_spec(env, ordinal)
+
+    def adopted_loop_spec(self, env, ordinal):
+        """A loop that was moved out of a function under a loop contract into a helper ("extract method"): if the helper has
+        exactly one loop and exactly one function on the call stack has exactly one loop contract whose loop no longer exists
+        in it, that contract is tried on the helper's loop.  Everything proved afterwards on this path is marked `adopted`:
+        a failing obligation then means 'the adopted contract does not fit' (undecided), never a violation."""
+        try:
+            own_loops = [n for n in ast.walk(env.finfo.node) if isinstance(n, (ast.For, ast.While))]
+            if len(own_loops) != 1 or ordinal != 0:
+                return None
+            found = []
+            for q in self.ctx.fn_stack:
+                cq = self.registry.get(q)
+                if cq is None or not cq.loops or q == env.finfo.qualname:
+                    continue
+                fi = self.program.func(q)
+                n_loops = len([n for n in ast.walk(fi.node) if isinstance(n, (ast.For, ast.While))])
+                orphans = [o for o in cq.loops if o >= n_loops]
+                if orphans:
+                    found.append((cq, orphans))
+            if len(found) != 1 or len(found[0][1]) != 1:
+                return None
+            self.ctx.adopted_loops = True
+            self.ctx.assumed.add("loop contract of %s tried on the loop of its helper %s (the loop was moved)"
+                                 % (found[0][0].qualname, env.finfo.qualname))
+            return found[0][0].loops[found[0][1][0]]
+        except Exception:
+            return None
 
     def st_For(self, st, env):
         it = self.eval(st.iter, env)
@@ -688,6 +718,12 @@ class Interp(object):
                      and family(env.locals[c]) == kind_family(spec.havoc[nm]) and c not in alias.values()]
             # a candidate must be live across iterations: assigned or mutated in the body
             cands = [c for c in cands if c in stored or kind_family(spec.havoc[nm]) == "list"]
+            if len(cands) > 1:
+                # several locals of the right kind (e.g. three flags renamed together): the one whose name contains the
+                # contract's name (homeX -> shouldHomeX), if that singles one out
+                close = [c for c in cands if nm.lower() in c.lower() or c.lower() in nm.lower()]
+                if len(close) == 1:
+                    cands = close
             if len(cands) != 1:
                 raise Unsupported("loop contract of %s names local '%s', which the function no longer has, and %d locals could "
                                   "stand for it (contract/code shape mismatch)" % (env.finfo.qualname, nm, len(cands)), st)
